@@ -218,6 +218,7 @@ def _o_shiftlon(call):
 
 
 def install():
+    probe.enable_argflip({n: None for n in ("eq2gal", "gal2eq", "eq2ec", "ec2eq", "ec2gal", "gal2ec", "eq2sdss", "sdss2eq", "eq2xyz", "xyz2eq", "shiftlon")}, every=4)
     probe.enable_recall("C09.recall", every=5)
     c = "esutil.coords:"
     probe.instrument(c + "euler", [_o_euler])
